@@ -46,6 +46,9 @@ def compute_step(rhs: typing.Callable, initial_time, initial_state, timestep, in
         nonzero_coeffs_mask = stage_coeffs != 0.0
         nonzero_coeffs_mask = D.ar_numpy.where(~D.ar_numpy.any(nonzero_coeffs_mask), D.ar_numpy.ones_like(nonzero_coeffs_mask), nonzero_coeffs_mask)
         intermediate_dstate = timestep * D.ar_numpy.sum(intermediate_stages_in[...,nonzero_coeffs_mask] * stage_coeffs[nonzero_coeffs_mask], axis=-1)
+        if not D.ar_numpy.any(stage_coeffs != 0.0):
+            # no stage contributes: zero times a stage value left non-finite by an earlier step that overflowed would be nan
+            intermediate_dstate = D.ar_numpy.zeros_like(intermediate_dstate)
         intermediate_rhs = rhs(
             initial_time + timestep * rk_tableau[stage, 0], 
             initial_state + intermediate_dstate,
